@@ -131,6 +131,65 @@ R.contract(
     replayable=False,  # the counter-models use interference by another thread while this one waits for the lock (rely havoc): not reproducible in a sequential native run
 )
 
+# ------------------------------------------------------------------------------------------------- stateful phase: --set-* overrides reach every request
+SFX_ = "schemathesis.engine.phases.stateful._executor:"
+BC = SFX_ + "execute_state_machine_loop.<locals>._InstrumentedStateMachine.before_call"
+Entry1 = KeyedDict(Str, Str, sizes=(0, 1))
+
+
+def _before_call_setup(it):
+    """The method of the class defined inside execute_state_machine_loop, with its closure: `config` (whose override answers for_operation) and `super()`."""
+    from pyvc import extract
+    from pyvc.interp import BuiltinFn, Env
+    from pyvc.values import VObj
+
+    mod, node, owner, chain = extract.find_def(BC)
+    override = VObj(it.resolve_class("spec:Override"), {})
+    config = VObj(it.resolve_class("spec:EngineConfig"), {"override": override})
+    parent = VObj(it.resolve_class("spec:ParentMachine"), {})
+    env = Env(module=mod)
+    env.vars["config"] = config
+    env.vars["__super__"] = parent
+    fn = it.make_function(node, mod, env, BC.partition(":")[2])
+    return fn, {}
+
+
+def _for_operation(it, obj, a, k):
+    entries = {loc: Entry1.make(it, it.path.fresh(f"override_{loc}")) for loc in ("query", "headers", "cookies", "path_parameters")}
+    it.ghost["entries"] = {loc: dict(v) for loc, v in entries.items()}
+    return entries
+
+
+def _parent_before_call(it, obj, a, k):
+    it.ghost["forwarded"] = it.ghost["forwarded"] + 1
+    return None
+
+
+R.nominal_methods["spec:Override"] = {"for_operation": _for_operation}
+R.nominal_methods["spec:ParentMachine"] = {"before_call": _parent_before_call}
+Container = OneOf(NoneT, KeyedDict(Str, Str, sizes=(0, 1)))
+R.contract(
+    BC,
+    prop="C14",
+    setup=_before_call_setup,
+    args={"self": Obj("spec:Machine"), "case": Obj("spec:StatefulCase", operation=Opq("Operation"), query=Container, headers=Container, cookies=Container, path_parameters=Container)},
+    ghost={"entries": None, "forwarded": 0},
+    ensures={
+        # every configured override (restricted to declared parameters by for_operation, contract above) is present on the case that is about to be sent - also when the
+        # generated container was empty or absent
+        "every_override_is_on_the_case": "all(getattr_of(case, loc) is not None and k in getattr_of(case, loc) and getattr_of(case, loc)[k] == ghost('entries')[loc][k] "
+                                         "for loc in ghost('entries') for k in ghost('entries')[loc])",
+        # values that are not overridden stay as generated
+        "other_values_untouched": "all(implies(old(snapshot_of(case))[loc] is not None, all(k in getattr_of(case, loc) and (k in ghost('entries')[loc] or getattr_of(case, loc)[k] == old(snapshot_of(case))[loc][k]) "
+                                  "for k in old(snapshot_of(case))[loc])) for loc in ghost('entries'))",
+        "parent_hook_still_runs": "ghost('forwarded') == 1",
+    },
+    bounded_note="one override and one generated value per location",
+    replayable=False,
+)
+R.spec_funcs["getattr_of"] = lambda it, case, loc: case.fields[loc]
+R.spec_funcs["snapshot_of"] = lambda it, case: {loc: (dict(case.fields[loc]) if isinstance(case.fields[loc], dict) else None) for loc in ("query", "headers", "cookies", "path_parameters")}
+
 LEVEL_TEXT = ("Deductive: header precedence, override restriction (loop invariant over any number of parameters) and the token cache's double-checked lock "
               "under an explicit rely condition (cache havoced at lock acquisition) are postconditions on the real functions, discharged by z3.")
 LEVEL_NOTE = "Trusted: CaseInsensitiveDict, threading.Lock as synchronisation point (rely), frozen timer, pyvc semantics (E9). Free interleavings are not decided."
